@@ -299,7 +299,16 @@ class Interp:
         return list(s.e_Tuple(n, env))
 
     def e_Dict(s, n, env):
-        return {s.ev(k, env): s.ev(v, env) for k, v in zip(n.keys, n.values)}
+        out = {}
+        for k, v in zip(n.keys, n.values):
+            if k is None:                       # {**other}
+                out.update(s.ev(v, env))
+                continue
+            kk = s.ev(k, env)
+            if isz(kk) or isinstance(kk, (STensor, TV)):
+                raise Unsupported('dict literal with a symbolic key')       # python would hash the z3 term
+            out[kk] = s.ev(v, env)
+        return out
 
     def e_JoinedStr(s, n, env):
         return '<fstring>'
@@ -556,6 +565,22 @@ class Interp:
             return P.class_attr(s, v, attr)
         if isinstance(v, SuperObj):
             return lambda *a, **k: None
+        if isinstance(v, (list, tuple)) and attr in ('index', 'count', 'remove') and any(isz(q) for q in v):
+            raise Unsupported('list.%s on a list holding symbolic values' % attr)
+        if isinstance(v, (list, tuple)) and attr == 'index':
+            def index(x, *rest):
+                if not isz(x):
+                    try:
+                        return v.index(x, *rest)
+                    except ValueError:
+                        raise Raised('ValueError', '%r is not in list' % (x,))
+                if rest or not all(is_conc(q) and not isinstance(q, bool) for q in v):
+                    raise Unsupported('list.index of a symbolic value')
+                for pos, q in enumerate(v):              # first match, decided element by element
+                    if CUR.ctx.decide(I(x) == q):
+                        return pos
+                raise Raised('ValueError', 'value is not in list')
+            return index
         if isinstance(v, dict) and attr == 'get':
             return lambda k, default=None: s.dict_lookup(v, k, default)
         if isinstance(v, (list, dict, tuple, str, set, frozenset)):
